@@ -35,7 +35,7 @@ var c29Boosts = []float64{0, 1e-9, 0.5, 1, 3, 1e6, 1e18, 1e300}
 func TestVerif_C29(t *testing.T) {
 	rec := kit.Open("C29")
 	defer rec.Done()
-	nCorp := rec.N(32, 500) // building a world costs ~0.7 s (shard builders)
+	nCorp := rec.N(32, 400) // building a world costs ~0.7 s (shard builders)
 	nQ := rec.N(76, 100)
 	for ci := 0; ci < nCorp; ci++ {
 		kind := ci % 4
